@@ -1254,6 +1254,18 @@ func sliceProvedByGuards(in ssa.Instruction) bool {
 	}
 	var nonNeg, leLen []edge
 	_, hIsLen := isLenOf(h)
+	// x[:len(x)-1] of the result of strings.Split with a non-empty separator (it always yields at least one piece)
+	if sub, isSub := h.(*ssa.BinOp); isSub && sub.Op == token.SUB {
+		if y, isLen := isLenOf(sub.X); isLen && sameSliceValue(y, s.X) {
+			if k, isC := constInt(sub.Y); isC && k == 1 {
+				if sc, isCall := y.(*ssa.Call); isCall && (calleeName(sc) == "strings.Split" || calleeName(sc) == "strings.SplitN") {
+					if sep, okS := constString(sc.Call.Args[1]); okS && sep != "" {
+						return true
+					}
+				}
+			}
+		}
+	}
 	// fact on an edge: a < b (strict) or a <= b
 	use := func(a, b ssa.Value, strict bool, e edge) {
 		if b == h {
@@ -1360,7 +1372,11 @@ func sameSliceValue(a, b ssa.Value) bool {
 		for _, in := range blk.Instrs {
 			if st, ok := in.(*ssa.Store); ok {
 				if fx, ok := st.Addr.(*ssa.FieldAddr); ok && fx.X == fa.X && fx.Field == fa.Field {
-					return false
+					// a store that cannot fall between the two loads (the literal being built before both)
+					// leaves them equal
+					if (mayPrecede(la, st) && mayPrecede(st, lb)) || (mayPrecede(lb, st) && mayPrecede(st, la)) {
+						return false
+					}
 				}
 			}
 			if c, ok := in.(ssa.CallInstruction); ok {
